@@ -89,6 +89,16 @@ def gen_cases(tier, seed):
         prog = sample_program(rng, D, ctx, 3)
         cases.append({"kind": "program", "prog": prog, "D": D, "ctx": ctx, "seed": env.subseed(seed, "c08p", i),
                       "world": "f64" if i % 4 else "f32", "mixed": i % 4 == 0, "cost": 2})
+    # long flat composites (>= 11 direct parts: sub-module keys '10', '11', ... sort before '2' as strings), non-commuting parts
+    for i in range(12 if tier == "quick" else 400):
+        D = int(rng.integers(2, 5))
+        nparts = int(rng.integers(11, 15))
+        fams = ["pointwise_affine", "permutation", "leakyrelu", "lu", "qr", "naive_linear", "coupling_affine", "ar_affine"]
+        prog = ("comp", [("leaf", zoo.sample_R_cfg(rng, "quick", D, 0, fams=fams)) for _ in range(nparts)])
+        if i % 3 == 2:
+            prog = ("inv", prog)
+        cases.append({"kind": "program", "prog": prog, "D": D, "ctx": 0, "seed": env.subseed(seed, "c08long", i),
+                      "world": "f64", "mixed": False, "cost": 3})
     # multiscale grid
     shapes = [(c,) for c in range(2, 10)]
     shapes += [(a, b) for a in range(1, 6) for b in range(1, 6)]
@@ -279,6 +289,15 @@ def run_multiscale(case):
             r.viol("routing_bijection", "multiscale does not emit every input coordinate exactly once", cfg=cfg)
         if float(lad.abs().max()) != 0.0:
             r.viol("lad", "multiscale logabsdet of pure shifts is not 0", cfg=cfg, got=lad.tolist())
+        # the same object again (per-call state such as a consumed iterator shows on the second call)
+        try:
+            with torch.no_grad():
+                y_again, lad_again = ms(x)
+            r.count("multiscale_repeated_calls")
+            if tuple(y_again.shape) != tuple(y.shape) or not torch.equal(y_again, y) or not torch.equal(lad_again, lad):
+                r.viol("repeat", "multiscale gives a different result when forward is called a second time on the same object", cfg=cfg)
+        except Exception as e:
+            r.viol("forward_raises", "multiscale forward raises when called a second time on the same object", cfg=cfg, exc=repr(e)[:200])
         try:
             with torch.no_grad():
                 xb, ladb = ms.inverse(y)
